@@ -4,6 +4,7 @@ import (
 	"encoding/json"
 	"fmt"
 	"os"
+	"regexp"
 	"sort"
 	"strings"
 	"time"
@@ -144,8 +145,6 @@ func (dr *driver) judge(c core.Case, r core.Result, race bool) {
 	}
 }
 
-var seenRaces = map[string]bool{}
-
 // judgeRaces converts race reports with a scriggo frame into violation classes.
 func (dr *driver) judgeRaces(c core.Case, r *core.Result) {
 	for _, rep := range strings.Split(r.Race, "==================") {
@@ -156,7 +155,7 @@ func (dr *driver) judgeRaces(c core.Case, r *core.Result) {
 		if !strings.Contains(rep, scriggoMark) {
 			continue
 		}
-		dr.add("race:"+core.RaceSignature(rep), core.Violation, "data race reported in scriggo code during Build/BuildTemplate\n"+core.Truncate(rep, 5000), c, 1<<20)
+		dr.add("race:"+raceSig(rep), core.Violation, "data race reported in scriggo code during Build/BuildTemplate\n"+core.Truncate(rep, 5000), c, 1<<20)
 	}
 }
 
@@ -178,7 +177,7 @@ func (dr *driver) runAll(cases []core.Case, race bool) {
 		if part == 1 {
 			cs = cases[cut:]
 		}
-		rs := dr.d.Run(cs, core.RunOpts{NoTally: true, CaseWall: 150 * time.Second, GOMAXPROCS: procs})
+		rs := dr.d.Run(cs, core.RunOpts{NoTally: true, CaseWall: 60 * time.Second, GOMAXPROCS: procs})
 		for i := range rs {
 			dr.judge(cs[i], rs[i], false)
 		}
@@ -284,6 +283,21 @@ func (p prop) Drive(d *core.Driver) error {
 		rr := d.Rand("race")
 		mix := bytesgen.Mix{Random: nr * 15 / 100, Mutant: nr * 45 / 100, TypeErr: nr * 5 / 100, MultiT: nr * 20 / 100, MultiP: nr * 5 / 100, Verbatim: nr * 10 / 100}
 		inputs := g.Batch(rr, mix)
+		if d.InScope(oomScope) {
+			// Open finding C04-F23 (huge array types make Build allocate their size): the
+			// race build cannot run under the address-space limit, so such an input would
+			// allocate tens of gigabytes there. Keep exactly that construct out of the
+			// race portion; the main sweep still runs it (and attributes the death).
+			kept := inputs[:0]
+			for _, in := range inputs {
+				if hugeArray(&in) {
+					d.T.Count("race_inputs_skipped_huge_array_type", 1)
+					continue
+				}
+				kept = append(kept, in)
+			}
+			inputs = kept
+		}
 		d.T.Set("race_detector_inputs", len(inputs))
 		dr.runAll(mkCases("race", inputs, raceBatchSize, true), true)
 	} else {
@@ -304,4 +318,21 @@ func debugDump(c core.Case, r core.Result) {
 	os.MkdirAll(dir, 0o755)
 	b, _ := json.MarshalIndent(core.Replay{Property: "C04", Tier: "quick", Seed: core.Seed(), Case: c, Result: r}, "", " ")
 	os.WriteFile(dir+"/"+c.ID+".json", b, 0o644)
+}
+
+// oomScope is the class of open finding C04-F23.
+const oomScope = "crash:compiler/types.(*Types).Zero:runtime: out of memory: cannot allocate N-byte block (N in use)"
+
+var reHugeArray = regexp.MustCompile(`\[[^\]\n]*(LARGE|<<\s*[3-6][0-9]|[0-9]{10,})[^\]\n]*\]`)
+
+// hugeArray reports whether a source of the input declares an array type whose
+// length is written with a shift of 30 or more, a literal of 10 or more digits or
+// the constant LARGE of the corpus file issue4348.go.
+func hugeArray(in *bytesgen.Input) bool {
+	for _, f := range in.Files {
+		if reHugeArray.Match(f.Data) {
+			return true
+		}
+	}
+	return false
 }
